@@ -479,5 +479,32 @@ def r15_9(ctx):
     float_validator_shape(ctx)
 
 
+def r15_10(ctx):
+    """R15.10 the path of a `load` / `save` request is a string before it reaches the file system: inside the `try` of each, the
+    request value has passed a string-only operation (rich's escape(), which raises TypeError for anything else, or an
+    isinstance test) before load_config / write_config receive it - open() takes an int as a file descriptor, so
+    `{"save": 1}` would otherwise write to and close the server's own stdout."""
+    repo = ctx.repo
+    f = repo.func(f"{KS}:handle_request")
+    ctx.analysed(f.qual)
+    for key, callee in (("load", "load_config"), ("save", "write_config")):
+        calls = [n for n in ast.walk(f.node) if isinstance(n, ast.Call) and ast.unparse(n.func).endswith(callee)
+                 and any(ast.unparse(a).replace('"', "'") == f"req['{key}']" for a in n.args)]
+        construct = f"handle_request/req['{key}'] is known to be a string when it is used as a path"
+        if not calls:
+            raise AnchorError(f"handle_request: {callee}(.. req['{key}'] ..) not found")
+
+        def ev(n, key=key):
+            if isinstance(n, (ast.If, ast.For, ast.While, ast.With, ast.Try)):
+                return []
+            return ["str"] if any(isinstance(c, ast.Call) and ast.unparse(c.func) == "escape" and c.args and ast.unparse(c.args[0]).replace('"', "'") == f"req['{key}']"
+                                  for c in ast.walk(n)) else []
+        fl = Flow(f.node, resolver=Resolver(f.node), events=ev).run()
+        evs = fl.events_at(calls[0]) or set()
+        gs = fl.guards_at(calls[0]) or set()
+        ok = "str" in evs or any(k.replace('"', "'") == f"isinstance(req['{key}'], str)" and pol for k, pol in gs)
+        (ctx.ok(construct, f.loc(calls[0])) if ok else
+         ctx.bad(construct, "a number or boolean reaches open() as a file descriptor (stdin / stdout of the server itself) instead of being refused", f.loc(calls[0])))
+
 def rules():
-    return [("R15.9", r15_9, 4), ("R15.7", r15_7, 1), ("R15.1", r15_1, 4), ("R15.2", r15_2, 2), ("R15.3", r15_3, 3), ("R15.4", r15_4, 2), ("R15.5", r15_5, 3), ("R15.6", r15_6, 2), ("R15.8", r15_8, 6)]
+    return [("R15.10", r15_10, 2), ("R15.9", r15_9, 4), ("R15.7", r15_7, 1), ("R15.1", r15_1, 4), ("R15.2", r15_2, 2), ("R15.3", r15_3, 3), ("R15.4", r15_4, 2), ("R15.5", r15_5, 3), ("R15.6", r15_6, 2), ("R15.8", r15_8, 6)]
